@@ -4,7 +4,7 @@
 From Coq Require Import Extraction ExtrOcamlBasic.
 From Coq Require Import List NArith ZArith String.
 From Gen Require Import Tables.
-From Model Require Import Base Names Flt F32 Matches Detect Declared Cd Decode Cli Md Md32 Layers SbLangs Jaro Jaro32.
+From Model Require Import Base Names Flt F32 Matches Detect Declared Cd Decode Cli Md Md32 Layers SbLangs Jaro Jaro32 Pipeline.
 
 Extraction Language OCaml.
 Separate Extraction
@@ -23,4 +23,5 @@ Separate Extraction
   Md.mess_ratio Md.suspicious Md32.md_consts32
   Layers.alpha_unicode_split
   SbLangs.sb_langs32
-  Jaro32.popularity32 Jaro32.jaro32.
+  Jaro32.popularity32 Jaro32.jaro32
+  Pipeline.pipeline.
